@@ -119,10 +119,17 @@ def string_families(tier):
     indented block positions."""
     allpos = list(S.DESCRIPTION_POSITIONS)
     hard = list(S.HARD_DESCRIPTIONS)
+    # line-level enumeration: every text of 2..3 lines over a small alphabet of LINES (indentation x words), the
+    # dimension block-string printing decisions depend on (common indent, interior blanks, empty lines)
+    import itertools
+
+    line_alpha = ["a", " a", "  a", "a a", " a a", "\ta b", ""]
+    lines = ["\n".join(t) for n in (2, 3) for t in itertools.product(line_alpha, repeat=n)]
     if tier == "quick":
         sigma = S.strings_upto(S.SIGMA_STR, 2)
         return [
             ("hard", hard, allpos, True),
+            ("lines", lines, [ALL] + INDENTED_POSITIONS, False),
             ("sigma", sigma, allpos, False),
             ("sigma_sdl", sigma, [ALL], True),
             ("small", S.strings_upto(S.SIGMA_SMALL, 5), [ALL], False),
@@ -131,6 +138,7 @@ def string_families(tier):
     sigma3 = S.strings_upto(S.SIGMA_STR, 3)
     return [
         ("hard", hard, allpos, True),
+        ("lines", lines, allpos, False),
         ("sigma2_sdl", S.strings_upto(S.SIGMA_STR, 2), allpos, True),
         ("sigma", sigma3, allpos, False),
         ("sigma_sdl", sigma3, [ALL], True),
@@ -152,6 +160,7 @@ def shards(tier):
                 out.append(("str", fam, pos, j, n))
     out.append(("dflt", 0, 2))
     out.append(("dflt", 1, 2))
+    out.append(("shared", 0, 1))
     return out
 
 
@@ -302,7 +311,41 @@ def run_default(index, res):
     return case
 
 
+def shared_default_schemas():
+    """Programmatic schemas in which ONE default-input object is shared by inputs of different types
+    (nothing forbids it; any cache kept on the default object must then be keyed by the type)."""
+    import graphql as g
+
+    out = []
+    color = lambda: g.GraphQLEnumType("Color", {"RED": g.GraphQLEnumValue("RED"), "ASC": g.GraphQLEnumValue("ASC")})  # noqa: E731
+    for label, value, t1, t2 in (
+        ("string_id", "7", lambda c: g.GraphQLString, lambda c: g.GraphQLID),
+        ("enum_string", "ASC", lambda c: c, lambda c: g.GraphQLString),
+        ("string_enum", "RED", lambda c: g.GraphQLString, lambda c: c),
+        ("int_float", 1, lambda c: g.GraphQLInt, lambda c: g.GraphQLFloat),
+        ("float_int", 2, lambda c: g.GraphQLFloat, lambda c: g.GraphQLInt),
+        ("list_scalar", 3, lambda c: g.GraphQLList(g.GraphQLInt), lambda c: g.GraphQLInt),
+    ):
+        for order in (0, 1):
+            c = color()
+            d = g.GraphQLDefaultInput(value=value)
+            a, b = (t1(c), t2(c)) if order == 0 else (t2(c), t1(c))
+            inp = g.GraphQLInputObjectType("In", {"x": g.GraphQLInputField(a, default=d), "y": g.GraphQLInputField(b, default=d)})
+            q = g.GraphQLObjectType("Query", {"f": g.GraphQLField(g.GraphQLInt, args={
+                "p": g.GraphQLArgument(a, default=d), "q": g.GraphQLArgument(b, default=d), "i": g.GraphQLArgument(inp)})})
+            out.append((f"{label}:{order}", g.GraphQLSchema(q, types=[c])))
+    return out
+
+
 def run_shard(shard, tier):
+    if shard[0] == "shared":
+        res = Result()
+        for label, schema in shared_default_schemas():
+            case = Case(res, {"kind": "shared", "label": label}, f"shared default object {label}")
+            check_schema(schema, None, case, False, "shared:" + label)
+            res.transitions += 1
+        res.sample({"family": "one GraphQLDefaultInput shared by an ID and a String input"}, 1)
+        return res
     res = Result()
     kind = shard[0]
     if kind == "fam":
